@@ -391,7 +391,13 @@ func VerifC15RepDiff() {
 	lo := nd.IntIn(-3, 3)
 	x, y := nd.IntIn(-9, 9), nd.IntIn(-9, 9)
 	var canon, other any
-	switch nd.Choice(12) {
+	switch nd.Choice(15) {
+	case 12: // Drops among the elements, standing for strings, arrays and maps, duplicates included
+		canon, other = []any{"b", "a", "b"}, []any{c15RepDrop{"b"}, "a", c15RepDrop{"b"}}
+	case 13:
+		canon, other = []any{[]any{x}, "s", []any{x}}, []any{c15RepDrop{[]any{x}}, c15RepDrop{"s"}, []any{x}}
+	case 14:
+		canon, other = []any{"b", "b", "a"}, []any{"b", c15RepDrop{"b"}, c15RepDrop{"a"}}
 	case 8: // fixed arrays and typed containers with nil elements
 		canon, other = []any{x, nil, y}, [3]any{x, nil, y}
 	case 9:
